@@ -95,9 +95,13 @@ OpDur(op) ==
          IF ~Recoverable(op.w) THEN <<>>
          ELSE LET out == RevertLoop(Cur, op.w)
                   j1  == IF jr.has THEN [jr EXCEPT !.rolled = TRUE] ELSE jr
+                  tr  == [out.st EXCEPT !.hist = TruncHead(@, out.st.disk.id)]
+                  y1  == MinOf(syn, out.st.disk.id)
               IN  RevertDur(Cur, op.w, jr, syn, pt) \o
-                  (IF out.ok THEN <<Dur([out.st EXCEPT !.hist = TruncHead(@, out.st.disk.id)], j1, MinOf(syn, out.st.disk.id), pt)>>
-                             ELSE <<>>)
+                  (IF out.ok
+                   THEN <<Dur(out.st, NoJournal, syn, pt), Dur(tr, NoJournal, y1, pt),    \* journal invalidated first (fix of C20-F1)
+                          Dur(tr, j1, y1, pt)>>
+                   ELSE <<>>)
     [] op.t = "J" ->
          LET j1 == [has |-> TRUE, base |-> kv.world, disk |-> disk, buf |-> buf, chain |-> SubSeq(chain, 1, op.i), rolled |-> FALSE]
          IN  <<Dur(Cur, jr, hist.head, SyncedPt(hist)), Dur(Cur, j1, hist.head, SyncedPt(hist))>>
